@@ -49,8 +49,8 @@ XS = 'http://www.w3.org/2001/XMLSchema'
 XSI = 'http://www.w3.org/2001/XMLSchema-instance'
 MODES = ('all', 'none', 'local', 'remote', 'sandbox')
 MAIN_KINDS = ('path', 'file_url', 'text', 'open_file', 'remote_url', 'text_remote_base')
-MECHS = ('include', 'redefine', 'override', 'import', 'locations', 'mapper_dict', 'mapper_call', 'hint_child', 'hint_demand', 'hint_pkg', 'hint_text')
-IMP_MECHS = ('import', 'locations', 'hint_child', 'hint_demand', 'hint_pkg', 'hint_text')
+MECHS = ('include', 'redefine', 'override', 'import', 'locations', 'mapper_dict', 'mapper_call', 'hint_child', 'hint_demand', 'hint_pkg', 'hint_text', 'import_second', 'import_second_safe')
+IMP_MECHS = ('import', 'locations', 'hint_child', 'hint_demand', 'hint_pkg', 'hint_text', 'import_second', 'import_second_safe')
 REMOTE_BASE = 'http://vk.example/base/sand/'
 
 
@@ -186,8 +186,11 @@ def main_denied(mode, main_kind):
     return mode == 'none' or (mode == 'remote' and local) or (mode in ('local', 'sandbox') and not local)
 
 
-def main_text(mech, loc):
-    if mech == 'include':
+def main_text(mech, loc, first=None):
+    if mech in ('import_second', 'import_second_safe'):
+        # the namespace is already loaded (from a location inside the sandbox) when the second location is met
+        body = f'<xs:import namespace="urn:imp" schemaLocation="{first}"/><xs:import namespace="urn:imp" schemaLocation="{loc}"/>'
+    elif mech == 'include':
         body = f'<xs:include schemaLocation="{loc}"/>'
     elif mech == 'redefine':
         body = f'<xs:redefine schemaLocation="{loc}"/>'
@@ -217,13 +220,17 @@ def run_cell(res, xmlschema, fx, mode, main_kind, mech, cls, spell_name, loc):
     flavour = 'imp' if mech in IMP_MECHS else 'inc'
     version_cls = xmlschema.XMLSchema11 if mech == 'override' else xmlschema.XMLSchema10
     opener = RecordingOpener(fx)
-    text = main_text(mech, esc(loc))
+    first = esc(urllib.request.pathname2url(os.path.relpath(fx.target('inside', 'imp'), fx.sand)))
+    text = main_text(mech, esc(loc), first)
     opener.main_body = text
     with open(fx.main_path, 'w') as f:
         f.write(text)
     kwargs = {'allow': mode, 'opener': opener, 'validation': 'lax'}
     if mech in ('locations', 'hint_demand'):
         kwargs['locations'] = [('urn:imp', loc)]
+    if mech == 'import_second_safe':
+        from xmlschema.loaders import SafeSchemaLoader
+        kwargs['loader_class'] = SafeSchemaLoader
     if mech == 'mapper_dict':
         kwargs['uri_mapper'] = {'urn:alias:target': loc}
     if mech == 'mapper_call':
